@@ -118,14 +118,22 @@ def run(case):
             for i, n in enumerate(reversed(case["tshape"])):
                 hdr[f"NAXIS{i + 1}"] = n
         tgt = hdr if form == "header" else dict(hdr)
-    kwargs = {"algorithm": case["alg"], "return_footprint": case["fp"]}
+    import zlib
+    fpk = zlib.crc32(("fp" + case["key"]).encode()) % 3
+    # the flag as a Python bool, a numpy bool (e.g. the result of .any()) or an int
+    kwargs = {"algorithm": case["alg"], "return_footprint": [case["fp"], np.bool_(case["fp"]), int(case["fp"])][fpk]}
+    if form == "wcs" and case["kind"] == "same" and case["tshape"] is None and fpk == 1:
+        tgt = cube.wcs                    # the cube's own WCS object as the target
     if case["so"] in ("given", "same"):
         import zlib
         conv = [tuple, tuple, list, np.array][zlib.crc32(("so" + case["key"]).encode()) % 4]      # the shape as tuple, list or array
         kwargs["shape_out"] = conv(case["shape_out"])
     elif case["so"] == "empty":
         kwargs["shape_out"] = ()
-    before = (cube.data.copy(), repr(cube.wcs.to_header()), cube.unit, dict(cube.meta), cube.mask.copy())
+    def _shapes(x):
+        ll_ = getattr(x, "low_level_wcs", x)
+        return (getattr(ll_, "array_shape", None), getattr(ll_, "pixel_shape", None)) if not isinstance(x, (dict,)) and not hasattr(x, "cards") else None
+    before = (cube.data.copy(), repr(cube.wcs.to_header()), cube.unit, dict(cube.meta), cube.mask.copy(), _shapes(cube.wcs), _shapes(tgt))
     try:
         r = cube.reproject_to(tgt, **kwargs)
         exc = None
@@ -135,6 +143,10 @@ def run(case):
     if not (np.array_equal(cube.data, before[0]) and repr(cube.wcs.to_header()) == before[1] and cube.unit == before[2]
             and cube.meta == before[3] and np.array_equal(cube.mask, before[4]) and list(cube.global_coords.keys()) == ["g"]):
         why.append("the source cube changed")
+    if _shapes(cube.wcs) != before[5]:
+        why.append(f"the source cube's WCS now records the array shape {_shapes(cube.wcs)[0]}, before the call {before[5][0]}")
+    if _shapes(tgt) != before[6]:
+        why.append(f"the target WCS object was altered: it records the array shape {_shapes(tgt)[0]}, before the call {before[6][0]}")
     # ---- independent statement of what should happen
     alg = case["alg"]
     ttypes = list(t.world_axis_physical_types)
@@ -174,6 +186,16 @@ def run(case):
         if r.meta != cube.meta or list(r.global_coords.keys()) != ["g"] or r.global_coords["g"] != cube.global_coords["g"]:
             why.append("meta / global coords of the result are not the source's")
             attrs_ok = False
+        # the result's global coords are its own: adding to one side must not show on the other
+        try:
+            r.global_coords.add("h", "custom:h", 1 * u.s)
+            cube.global_coords.add("s2", "custom:s2", 2 * u.s)
+            if "h" in cube.global_coords or "s2" in r.global_coords:
+                why.append("the result and the source share their global coordinates (one added afterwards to one shows on the other)")
+            cube.global_coords.remove("s2")
+            r.global_coords.remove("h")
+        except Exception as e:  # noqa
+            why.append(f"global coords of the result / source cannot be edited independently: {exc_name(e)}")
         rl = r.wcs.low_level_wcs if hasattr(r.wcs, "low_level_wcs") else r.wcs
         probe = [1.0] * nd
         if not np.allclose(np.atleast_1d(rl.pixel_to_world_values(*probe)), np.atleast_1d(t.pixel_to_world_values(*probe)), rtol=1e-12, atol=1e-12, equal_nan=True) \
